@@ -20,6 +20,10 @@ int64_t  h_ttl[2], h_now[2];
 extern "C" int harness()
 {
     last_now = 0;
+#ifndef VF_REAL
+    cfg_mlf = nondet_float(); // every finite positive max_load_factor
+    __vf_assume(cfg_mlf > 0.0f && cfg_mlf < 1.0e30f);
+#endif
     DECL_C(c);
     VF_P(0, 1, inv(c)); // base case: the constructor establishes the invariant
     // ---- arbitrary pre-state ----
